@@ -363,27 +363,71 @@ func rotateRules(c *an.Ctx, cg contigResult) {
 	}
 	// shifts
 	type shift struct {
-		call     *ssa.Call
+		call     *ssa.Call // the instruction in the rotation function (the copy itself, or the call of the helper that performs it)
 		dst, src *an.Term
 		field    string
+		seq      int // position among the copies of one helper
 	}
 	var shifts []shift
+	collect := func(fn *ssa.Function, ffi *an.FuncInfo, at *ssa.Call, fieldOfDst func(dst ssa.Value) string, inst func(t *an.Term) *an.Term) {
+		seq := 0
+		for _, b := range fn.Blocks {
+			for _, in := range b.Instrs {
+				call, ok := in.(*ssa.Call)
+				if !ok {
+					continue
+				}
+				bi, ok := call.Call.Value.(*ssa.Builtin)
+				if !ok || bi.Name() != "copy" {
+					continue
+				}
+				f := fieldOfDst(call.Call.Args[0])
+				if f != "equipmentReports" && f != "equipmentImpactRate" {
+					continue
+				}
+				d, sr := inst(ffi.Term(call.Call.Args[0])), inst(ffi.Term(call.Call.Args[1]))
+				if d == nil || sr == nil || d.K != an.KSlice || sr.K != an.KSlice {
+					continue
+				}
+				pos := call
+				if at != nil {
+					pos = at
+				}
+				seq++
+				shifts = append(shifts, shift{pos, d, sr, f, seq})
+			}
+		}
+	}
+	collect(rot, fi, nil, func(dst ssa.Value) string {
+		f, _ := fi.RefClass(dst).FieldOf("GCAServer")
+		return f
+	}, func(t *an.Term) *an.Term { return t })
+	// copies performed by a straight-line helper that is handed the array (shiftDownOneWeek(report))
 	for _, b := range rot.Blocks {
 		for _, in := range b.Instrs {
-			call, ok := in.(*ssa.Call)
+			hc, ok := in.(*ssa.Call)
 			if !ok {
 				continue
 			}
-			bi, ok := call.Call.Value.(*ssa.Builtin)
-			if !ok || bi.Name() != "copy" {
+			sc := hc.Call.StaticCallee()
+			if sc == nil || sc.Pkg != rot.Pkg || !p.Transparent(sc) {
 				continue
 			}
-			cls := fi.RefClass(call.Call.Args[0])
-			f, ok := cls.FieldOf("GCAServer")
-			if !ok || (f != "equipmentReports" && f != "equipmentImpactRate") {
-				continue
-			}
-			shifts = append(shifts, shift{call, fi.Term(call.Call.Args[0]), fi.Term(call.Call.Args[1]), f})
+			hfi := p.Info(sc)
+			collect(sc, hfi, hc, func(dst ssa.Value) string {
+				// the destination is (a slice of) a parameter: the field is that of the argument
+				t := hfi.Term(dst)
+				for t.K == an.KSlice {
+					t = t.A[0]
+				}
+				for k, prm := range sc.Params {
+					if hfi.Term(prm).Key() == t.Key() && k < len(hc.Call.Args) {
+						f, _ := fi.RefClass(hc.Call.Args[k]).FieldOf("GCAServer")
+						return f
+					}
+				}
+				return ""
+			}, func(t *an.Term) *an.Term { return fi.InstantiateTerm(t, hc) })
 		}
 	}
 	c.Count("ROTATE", len(shifts))
@@ -425,7 +469,7 @@ func rotateRules(c *an.Ctx, cg contigResult) {
 				}
 			}
 		}
-		order := an.Dominates(down.call, blank.call)
+		order := an.Dominates(down.call, blank.call) || (down.call == blank.call && down.seq < blank.seq)
 		held := an.Held(lf.StateAt(down.call, "GCAServer.mu")) && an.Held(lf.StateAt(blank.call, "GCAServer.mu"))
 		afterBuild := an.Dominates(appendSt, down.call)
 		c.Check(okDown && okBlank && order && held && afterBuild, "ROTATE", rot, down.call.Pos(), key,
